@@ -293,3 +293,46 @@ def mega(case, ctx):
     full = (case["out_shape"][0] * os_, case["out_shape"][1] * os_)
     ref, tol, a = pm.fraunhofer(model, (case["dx"], case["dx"]), tuple(case["du"]), wl, z, os_, full)
     cm.compare_field("C02.mega", got, ref, tol, np.ones(full, dtype=bool), what=f"pupil {m}x{n} out {full}")
+
+
+# --- an output window slid sample by sample over the same propagation --------------------------------------------
+
+@st.composite
+def slide_case(draw, tier="quick"):
+    big = draw(st.integers(0, 2)) == 0
+    shape = (draw(st.integers(80, 110)), draw(st.integers(80, 110))) if big else draw(gen.shape2(4, 14))
+    out_shape = [draw(st.integers(60, 90)), draw(st.integers(60, 90))] if big else [draw(st.integers(9, 14)), draw(st.integers(9, 14))]
+    win = [draw(st.integers(2, out_shape[0] - 6)), draw(st.integers(2, out_shape[1] - 6))]
+    return {"shape": list(shape), "out_shape": out_shape, "win": win, "axis": draw(st.integers(0, 1)),
+            "offsets": list(draw(st.permutations([-3, -2, -1, 0, 1, 2, 3])))[:draw(st.integers(3, 7))],
+            "seed": draw(st.integers(0, 2**31 - 1)), "q": [draw(gen.finite(0.1, 0.9)), draw(gen.finite(0.1, 0.9))]}
+
+
+@hyp("C02", "slide", lambda tier: slide_case(tier),
+     "the same wavefront propagated 3-7 times with an output mask window of fixed size whose position steps through "
+     "consecutive samples (in a drawn order): every evaluated sample equals the Fraunhofer sum, everything outside the "
+     "window is zero", examples=(60, 250), budget_s=(150, 700))
+def slide(case, ctx):
+    m, n = case["shape"]
+    rng = np.random.default_rng(case["seed"])
+    wl, z, dx = 1e-6, 2.0, 1e-3
+    amp = rng.uniform(0.3, 1.0, size=(m, n))
+    opd = rng.normal(size=(m, n)) * 0.05 * wl
+    os_ = 1
+    du = (case["q"][0] / m * wl * z / dx, case["q"][1] / n * wl * z / dx)
+    full = tuple(case["out_shape"])
+    ctx.tag("big" if max(m, n) >= 80 else "small", f"steps:{len(case['offsets'])}", f"axis:{case['axis']}")
+    ctx.nontrivial_if(True)
+    with lentil_call("C02.slide.build", "Pupil multiply"):
+        w = lentil.Wavefront(wl) * lentil.Pupil(amplitude=amp.copy(), opd=opd.copy(), pixelscale=dx, focal_length=z)
+    model = pm.phasor((m, n), amp, opd, np.ones((m, n), dtype=int), wl)
+    ref, tol, a = pm.fraunhofer(model, (dx, dx), du, wl, z, os_, full)
+    h, wd = case["win"]
+    for off in case["offsets"]:
+        r0 = full[0] // 2 - h // 2 + (off if case["axis"] == 0 else 0)
+        c0 = full[1] // 2 - wd // 2 + (off if case["axis"] == 1 else 0)
+        mask = np.zeros(full, dtype=int)
+        mask[r0:r0 + h, c0:c0 + wd] = 1
+        with lentil_call("C02.slide", f"propagate_dft(mask window at offset {off})"):
+            got = lentil.propagate_dft(w, pixelscale=du, shape=full, oversample=os_, mask=mask).field
+        cm.compare_field("C02.slide", got, ref, tol, mask.astype(bool), what=f"window {h}x{wd} at offset {off}:")
